@@ -27,13 +27,61 @@ Theorem c01_ordered_prefix : forall U own T nfr frag mppi,
      exists s k j, own i = Some (s, k, j) /\ 0 <= k /\ 0 <= j < nfr s k /\ i = T s k + j /\
                    c = uchunk T nfr frag mppi s k j) ->
   forall peer_tsn buf maxent evs s, in32 buf ->
-  crun_ok U own (e2e_cinit peer_tsn buf maxent) evs ->
-  let outs := outs_of s (couts U (e2e_cinit peer_tsn buf maxent) evs) in
+  crun_ok 32768 U own (e2e_cinit false peer_tsn buf maxent) evs ->
+  let outs := outs_of s (couts U (e2e_cinit false peer_tsn buf maxent) evs) in
   map e2e_bytes outs =
   map (fun i => (s, concat (map (frag s (Z.of_nat i)) (js (nfr s (Z.of_nat i)))), mppi s (Z.of_nat i)))
       (seq 0 (length outs)).
 Proof. exact e2e_ordered_prefix_data. Qed.
 Print Assumptions c01_ordered_prefix.
+
+(* I-DATA mode (message interleaving): messages are identified by MID = k mod 2^32, fragments by FSN;
+   the TSN index of a fragment ([tix s k j]) is arbitrary - any interleaving of the fragments of
+   different streams, any scheduler.  Non-first fragments carry no PPI on the wire (0); the PPI delivered
+   is the first fragment's.  H_mid replaces H_ssn: fewer than 2^31 messages ahead of the read cursor. *)
+Theorem c01_ordered_prefix_idata : forall U own tix nfr frag mppi,
+  (forall s k, 1 <= nfr s k < 2147483648) ->
+  (forall i c, U i = Some c ->
+     exists s k j, own i = Some (s, k, j) /\ 0 <= k /\ 0 <= j < nfr s k /\ i = tix s k j /\
+                   c = uichunk tix nfr frag mppi s k j) ->
+  forall peer_tsn buf maxent evs s, in32 buf ->
+  crun_ok 2147483648 U own (e2e_cinit true peer_tsn buf maxent) evs ->
+  let outs := outs_of s (couts U (e2e_cinit true peer_tsn buf maxent) evs) in
+  map e2e_bytes outs =
+  map (fun i => (s, concat (map (frag s (Z.of_nat i)) (js (nfr s (Z.of_nat i)))), mppi s (Z.of_nat i)))
+      (seq 0 (length outs)).
+Proof. exact e2e_ordered_prefix_idata. Qed.
+Print Assumptions c01_ordered_prefix_idata.
+
+(* The same in terms of the messages written.  [ws] = the messages accepted by writes, in the order the
+   pending queue hands them to TSN assignment (message mode: c17_msg_contiguous), each non-empty and
+   shorter than 2^31 bytes, cut into fragments of at most maxp >= 1 bytes as packetize does (sw_frags_spec);
+   the universe generated from them ([g_U]: message k of stream s occupies consecutive TSN indices from i0
+   on, SSN = k mod 2^16, B/E flags, the message's PPI on every fragment) is well-formed
+   ([c01_generated_universe_wf]) and what stream s hands to the application is a prefix of what was
+   written on s, bytes and PPI equal. *)
+Theorem c01_ordered_prefix_written : forall maxp, (1 <= maxp)%nat -> forall ws i0,
+  Forall (fun w => em_data w <> [] /\ Z.of_nat (length (em_data w)) < 2147483648) ws ->
+  forall peer_tsn buf maxent evs s, in32 buf ->
+  crun_ok 32768 (g_U maxp ws i0) (g_own maxp ws i0) (e2e_cinit false peer_tsn buf maxent) evs ->
+  let outs := outs_of s (couts (g_U maxp ws i0) (e2e_cinit false peer_tsn buf maxent) evs) in
+  map e2e_bytes outs = map (fun w => (s, em_data w, em_ppi w)) (firstn (length outs) (e2e_written s ws)).
+Proof. exact e2e_ordered_prefix_written. Qed.
+Print Assumptions c01_ordered_prefix_written.
+
+Theorem c01_generated_universe_wf : forall maxp, (1 <= maxp)%nat -> forall ws i0 i c,
+  g_U maxp ws i0 i = Some c ->
+  exists s k j, g_own maxp ws i0 i = Some (s, k, j) /\ 0 <= k /\ 0 <= j < g_nfr maxp ws s k /\
+                i = g_T maxp ws i0 s k + j /\
+                c = uchunk (g_T maxp ws i0) (g_nfr maxp ws) (g_frag maxp ws) (g_ppi ws) s k j.
+Proof. exact g_wf. Qed.
+Print Assumptions c01_generated_universe_wf.
+
+Theorem c01_generated_fragments_are_the_message : forall maxp ws s k w,
+  g_msg ws s k = Some w ->
+  concat (map (g_frag maxp ws s k) (js (g_nfr maxp ws s k))) = em_data w /\ g_ppi ws s k = em_ppi w.
+Proof. exact g_message. Qed.
+Print Assumptions c01_generated_fragments_are_the_message.
 
 (* the queue-level core: one reassembly queue fed with fragments of a message family, none twice, in any
    order, reads in between: the deliveries are consecutive whole messages starting at the read cursor *)
@@ -71,8 +119,24 @@ Example c01_example :
   let U i := match own i with Some (s, k, j) => Some (uchunk T nfr frag mppi s k j) | None => None end in
   let evs := [EvArr 13 true; EvArr 11 true; EvRead 0 99; EvArr 12 true; EvArr 11 true; EvArr 10 true;
               EvRead 0 1; EvRead 0 99; EvRead 1 99; EvRead 0 99] in
-  map e2e_bytes (couts U (e2e_cinit 10 4096 0) evs) =
+  map e2e_bytes (couts U (e2e_cinit false 10 4096 0) evs) =
   [(0, [0;0;0;0;0;1], 51); (1, [1;0;0], 52); (0, [0;1;0], 51)].
+Proof. vm_compute. reflexivity. Qed.
+
+(* non-vacuity, I-DATA: fragments of two streams interleaved on the wire, reordered, one duplicated *)
+Example c01_example_idata :
+  let tix s k j := if s =? 0 then (if k =? 0 then 20 + 2 * j else 24) else 21 + 2 * j in
+  let nfr s k := if (s =? 0) && (k =? 1) then 1 else 2 in
+  let frag s k j := [s; k; j] in
+  let mppi s k := 51 + s in
+  let own i := if i =? 20 then Some (0, 0, 0) else if i =? 21 then Some (1, 0, 0)
+               else if i =? 22 then Some (0, 0, 1) else if i =? 23 then Some (1, 0, 1)
+               else if i =? 24 then Some (0, 1, 0) else None in
+  let U i := match own i with Some (s, k, j) => Some (uichunk tix nfr frag mppi s k j) | None => None end in
+  let evs := [EvArr 24 true; EvArr 23 true; EvArr 22 true; EvRead 0 99; EvArr 20 true; EvArr 22 true;
+              EvRead 0 99; EvArr 21 true; EvRead 0 99; EvRead 1 3; EvRead 1 99] in
+  map e2e_bytes (couts U (e2e_cinit true 20 4096 0) evs) =
+  [(0, [0;0;0;0;0;1], 51); (0, [0;1;0], 51); (1, [1;0;0;1;0;1], 52)].
 Proof. vm_compute. reflexivity. Qed.
 
 (* D16: without H_ssn the statement "an acknowledged chunk is held until it is read" fails: with the read
